@@ -88,7 +88,17 @@ pub fn recover(signature: [u8; 64], message: &Message) -> Result<PublicKey, Erro
     let (sig, recid) = decode_signature(signature);
     let sig =
         k256::ecdsa::Signature::from_slice(&sig).map_err(|_| Error::InvalidSignature)?;
-    let vk = VerifyingKey::recover_from_prehash(&**message, &sig, recid.into())
+    let mut recid: RecoveryId = recid.into();
+    // A high-s signature recovers the same key as its normalized form with the
+    // opposite y parity. This matches the behavior of the `secp256k1` backend.
+    let sig = match sig.normalize_s() {
+        Some(normalized) => {
+            recid = RecoveryId::new(!recid.is_y_odd(), recid.is_x_reduced());
+            normalized
+        }
+        None => sig,
+    };
+    let vk = VerifyingKey::recover_from_prehash(&**message, &sig, recid)
         .map_err(|_| Error::InvalidSignature)?;
     Ok(PublicKey::from(&vk))
 }
